@@ -10,7 +10,7 @@
    table; an illegal call is a harness fault and rejects the trace); its observations are
    compared with the expectations computed from the world, and the names of the violated
    clauses are accumulated per clause with the number of hits, the first record, and the
-   record with the shortest history.  A trace must end with Close; Abort rejects. *)
+   record with the shortest history (field n = operations since Init).  A trace must end with Close; Abort rejects. *)
 EXTENDS LatticeNav
 
 TraceLog == ndJsonDeserialize(IOEnv.TRACE)
@@ -53,7 +53,7 @@ TInit ==
   /\ LET b == Step(<<>>, Rec)
          cl == Clauses(<<>>, Rec, b)
      IN /\ stk' = <<[b EXCEPT !.ok = (Hard(cl) = {})]>>
-        /\ viol' = Note(cl, 1)
+        /\ viol' = Note(cl, 0)
         /\ Count("Init", TRUE, FALSE)
 
 TOp ==
@@ -64,7 +64,7 @@ TOp ==
      /\ LET b == Step(a, Rec)
             cl == IF a.ok THEN Clauses(a, Rec, b) ELSE {}
         IN /\ stk' = SubSeq(stk, 1, Rec.j - 1) \o <<[b EXCEPT !.ok = (a.ok /\ Hard(cl) = {})]>>
-           /\ viol' = Note(cl, Rec.j)
+           /\ viol' = Note(cl, Rec.n)
            /\ Count(Rec.e, a.ok, Rec.e = "Safety" /\ a.ok /\ Rec.s2c > 0)
 
 \* exploration statistics written by the harness (not judged)
